@@ -11,6 +11,7 @@ import (
 	"encoding/json"
 	"fmt"
 	"os"
+	"regexp"
 	"sort"
 )
 
@@ -146,6 +147,52 @@ func Reached(label string) { Reach[label] = true }
 
 func Event(kind string, args ...interface{}) {
 	EventsL = append(EventsL, fmt.Sprint(append([]interface{}{kind}, args...)...))
+}
+
+// Matches reports whether s matches the Go regular expression re (search
+// semantics, like regexp.MatchString; anchor with ^ and $ for a full match).
+// Under GSX this is a single regular-language membership constraint.
+func Matches(re, s string) bool { return regexp.MustCompile(re).MatchString(s) }
+
+// Or / And are non-short-circuit boolean connectives: under GSX they build
+// one formula instead of forking the path.
+func Or(bs ...bool) bool {
+	r := false
+	for _, b := range bs {
+		r = r || b
+	}
+	return r
+}
+
+func And(bs ...bool) bool {
+	r := true
+	for _, b := range bs {
+		r = r && b
+	}
+	return r
+}
+
+// Bound returns the exploration bound `name` of the current tier (def when
+// unset). Natively it is read from the counterexample file.
+func Bound(name string, def int) int {
+	load()
+	if v, ok := model["bound:"+name]; ok {
+		if f, ok := v.(float64); ok {
+			return int(f)
+		}
+	}
+	return def
+}
+
+// Count returns how many of bs are true (without forking under GSX).
+func Count(bs ...bool) int {
+	n := 0
+	for _, b := range bs {
+		if b {
+			n++
+		}
+	}
+	return n
 }
 
 // Symbolic reports whether the harness runs under the symbolic executor.
